@@ -262,7 +262,7 @@ func (i Identity) SysEx() []byte {
 	return []byte{0xF0, 0x7E, dataByte(i.Channel), 0x06, 0x01, 0xF7}
 }
 
-func (i Identity) Parse(bt []byte) error {
+func (i *Identity) Parse(bt []byte) error {
 	//return []byte{0xF0, 0x7E, i.Channel, 0x06, 0x01, 0xF7}
 	if len(bt) != 6 {
 		return fmt.Errorf("wrong length: %v (must be 6)", len(bt))
